@@ -8,6 +8,8 @@
    (Model/Monitors.v: ref.order_shards_exist, ref.shard_has_order, ref.completed_scheduled,
    ref.model_alias); they are not proved as global invariants of the model. *)
 From SaoVerif Require Import Base.Prelude Base.Ints Base.Dec Model.Did Model.Types Model.Monad Model.Bank Model.Select Model.Node Model.Storage Model.Sao Model.Hooks Model.App Model.Spec Proofs.Schedule.
+From RecordUpdate Require Import RecordUpdate.
+Import RecordSetNotations.
 
 Theorem C13_store_links : forall cx s m s' d, step cx s (OStore m) = (s', OutTx COk d) ->
   Inv_ids s -> counts_small s -> st_replica m < two63 ->
